@@ -12,7 +12,8 @@ output line:
   mac-body    decs accepted with a message other than the one the preceding bytes decode to
   mac-reject  decs rejected a correctly tagged buffer whose body decodes
   mac-enc     encs did not append HMAC(key, encoding)
-  output      malformed output line (crash markers are handled by the framework)
+  total       the implementation crashed (sanitizer report, signal) or threw on this op
+  output      malformed output line
 -/
 import EphVerif.Driver.Proto
 import EphVerif.Model.Message
@@ -106,7 +107,7 @@ def roundTripVerdict (m : Msg) (impl : Option String) : String :=
       if line == want then "ok" else s!"viol:roundtrip:expected {want}"
     else "ok"
 
-def step (_ : Unit) (tok : List String) (_line : String) (impl : Option String) : Unit × String × String :=
+def stepCore (tok : List String) (impl : Option String) : Unit × String × String :=
   match tok with
   | "enc" :: rest =>
     match parseMsg rest with
@@ -187,6 +188,16 @@ def step (_ : Unit) (tok : List String) (_line : String) (impl : Option String) 
       ((), fmtOutcome (decodeSigned mac b key), verdict)
     | _, _ => ((), "bad-op", "ok")
   | _ => ((), "bad-op", "ok")
+
+/-- C16 "without out-of-bounds access, undefined behaviour or exceptions": a crash marker (written by
+    the framework for the op at which the harness died) or an exception name is a violation of its own -/
+def step (_ : Unit) (tok : List String) (_line : String) (impl : Option String) : Unit × String × String :=
+  let (s, out, verdict) := stepCore tok impl
+  match impl with
+  | some line =>
+    if line.startsWith "crash:" || line.startsWith "throw:" || line == "oob" then (s, out, "viol:total:" ++ line)
+    else (s, out, verdict)
+  | none => (s, out, verdict)
 
 def machine : Machine Unit := { init := (), step := step }
 
